@@ -405,6 +405,8 @@ def policy (rec loc : String) : Discipline :=
   | "iv_thread.start_routine" => immutableAfterPublication ["iv_thread_create"]
   | "iv_thread.arg" => immutableAfterPublication ["iv_thread_create"]
   | "iv_thread.tid" => atomicOnly ["iv_thread_create"]
+  | "iv_thread.orphaned" => lockedBy "iv_thread_lock" ["iv_thread_create"] false   -- hand-over flags of the creator-deinit repair
+  | "iv_thread.exited" => lockedBy "iv_thread_lock" ["iv_thread_create"] false
   | "iv_thread.list" => ownerOnly []
   | "iv_thread.thread_id" => ownerOnly []
   | _ =>
